@@ -42,16 +42,19 @@ META = {
             'finite word/emoji languages of both patterns before and after remove_unicode_matches (survival of every listed '
             'word and single-code-point emoji, dead residue, disjointness, lower-case stability, no whitespace edges, tokenizer '
             'separators); every producer of resolution["score"] within [0, 1]; reachability of the crashing other-results '
-            'branch; not-found sentinel vs found-guard; locals read after a swallowing try; start taken from the match position.',
-    'note': 'Not decided: grapheme tokenisation and emoji classification (third-party `emoji`/`grapheme` data); which entity '
-            'wins when both polarities occur (score order; cross-polarity containment such as "ok" inside "not ok" is only '
-            'observed); `x <= 1` for match_value\'s formula (loop-count argument) - reported undecided when it reaches the output; '
+            'branch and of the per-other-match path with its attribute reads; not-found sentinel vs found-guard; locals read after a '
+            'swallowing try; start taken from the match position; is_emoji interpreted on every listed code point; extract interpreted '
+            'as written on token configurations (<= 7 tokens) around every listed expression.',
+    'note': 'Not decided: grapheme clustering (code points are used) and emoji classification beyond the listed code points (the '
+            'third-party emoji table is read as data when present); which entity wins when two standalone expressions of both '
+            'polarities occur (score order) - a phrase against the words embedded in it is tabulated; `x <= 1` for match_value\'s formula (loop-count argument) - reported undecided when it reaches the output; '
             'two-code-point skin-tone sequences (outside the quantifier, NotSupportedByDesign for python in the Specs); that '
             '\\b-delimited matching finds a listed word in every surrounding (L+ treats \\b as always true, so membership is a '
             'necessary condition only).',
     'technique': 'table agreement over constructor / dict wiring, finite regex-language enumeration before and after a re-stated '
                  'textual rewrite, small abstract interpreter (constructor binding, last-store-wins fields, interval arithmetic) '
-                 'for who-produces, definite-assignment and sentinel/guard agreement',
+                 'for who-produces, definite-assignment and sentinel/guard agreement, closed-helper tabulation with a whitelisting '
+                 'interpreter (sa/ointerp.py) for is_emoji and extract',
 }
 
 SEPARATOR_POOL = [' ', '\t', ',', '.', '!', '?', ';', ':', "'", '"', '(', ')', '-']
@@ -2728,6 +2731,15 @@ def run(chk):
                'flags is case-sensitive; str.strip() removes exactly the whitespace the language abstraction maps to " "')
     chk.assume('L+ treats \\b and look-arounds as always true: membership of a listed expression in the matched language is a '
                'necessary condition for recognising it')
+    t = emoji_table()
+    if t is not None:
+        chk.assume('third-party data consulted: the emoji package table %s is read as data (never imported) to decide is_emoji on the '
+                   'listed code points; demojize is modelled as "replaces every code point that is a key of that table"' % t['path'])
+    else:
+        chk.assume('the emoji package data is not readable: is_emoji is decided from its formulation only')
+    chk.assume('tabulation: extract is interpreted as written (sa/ointerp.py); the patterns are stood in for by their enumerated '
+               'languages matched leftmost-longest between word boundaries, grapheme slicing by code points, fillers are the '
+               'neutral token %r' % FILLER)
     idx = get_index()
     analyse(idx, chk, tab={'max_n': 7})
     chk.exhaustive = True
@@ -2737,6 +2749,7 @@ def run(chk):
 CONTROL_PACKAGE = r"""
 import re
 import regex
+from emoji import demojize
 
 
 class Culture:
@@ -2752,10 +2765,24 @@ class Constants:
 class EnglishChoice:
     TokenizerRegex = f'[^\\w\\d]'
     TrueRegex = f'\\b(yes|ok)\\b|(\\uD83D\\uDC4C|\\u0001f44c)'
-    FalseRegex = f'\\b(no|not\\s+ok)\\b|(\\uD83D\\uDC4E|\\u0001F44E)'
+    FalseRegex = f'\\b(no|not\\s+ok)\\b|(\\uD83D\\uDC4E|\\u0001F44E|\\u0001F590)'
+
+
+class QueryProcessor:
+    @staticmethod
+    def to_lower_preserving_length(source):
+        return ''.join(c.lower() if len(c.lower()) == 1 else c for c in source)
 
 
 class StringUtility:
+    @staticmethod
+    def is_emoji(letter):
+        val = demojize(letter)
+        if letter in val:
+            return False
+        else:
+            return True
+
     @staticmethod
     def remove_unicode_matches(string):
         py_regex = re.sub('\\\\u.{4}[\\|\\\\]', '', string.pattern)
@@ -2784,6 +2811,8 @@ class RegExpUtility:
 class ExtractResult:
     def __init__(self):
         self.start = 0
+        self.length = 0
+        self.text = ''
         self.type = ''
         self.data = None
 
@@ -2832,31 +2861,75 @@ class ChoiceExtractor:
     def extract(self, source):
         results = list()
         partial_results = list()
-        lowered = source.lower()
+        lowered = QueryProcessor.to_lower_preserving_length(source)
+        source_tokens = self.__tokenize(lowered)
         for (regexp, type_extracted) in self.config.regexes_map.items():
             for match in RegExpUtility.get_matches(regexp, lowered):
-                score = self.match_value([], [], 0)
-                value = ExtractResult()
-                value.start = match.start()
-                value.type = type_extracted
-                value.data = ChoiceExtractDataResult(source, score)
-                partial_results.append(value)
+                text = match.group()
+                match_tokens = self.__tokenize(text)
+                top_score = 0.0
+                for i in range(len(source_tokens)):
+                    score = self.match_value(source_tokens, match_tokens, i)
+                    top_score = max(top_score, score)
+                if top_score > 0.0:
+                    value = ExtractResult()
+                    value.start = match.start()
+                    value.length = len(text)
+                    value.text = source[value.start: value.start + value.length]
+                    value.type = type_extracted
+                    value.data = ChoiceExtractDataResult(source, top_score)
+                    partial_results.append(value)
+        if len(partial_results) == 0:
+            return results
+        partial_results = sorted(partial_results, key=lambda res: res.start)
         if self.config.only_top_match:
-            results.append(partial_results[0])
+            best = 0.0
+            top = 0
+            for i in range(len(partial_results)):
+                if partial_results[i].data.score > best:
+                    best = partial_results[i].data.score
+                    top = i
+            results.append(partial_results[top])
         else:
             results = partial_results
         return results
 
     def match_value(self, source, match, start_pos):
         matched = 0
+        total_deviation = 0
         for token in match:
             pos = StringUtility.index_of(source, token, start_pos)
             if pos >= 0:
-                matched = matched + 1
+                distance = pos - start_pos if matched > 0 else 0
+                if distance <= self.config.max_distance:
+                    matched = matched + 1
+                    total_deviation = total_deviation + distance
+                    start_pos = pos + 1
         score = 0.0
-        if matched > 0:
-            score = 0.4 + 0.6 * (matched / len(source))
+        if matched > 0 and (matched == len(match) or self.config.allow_partial_match):
+            completeness = matched / len(match)
+            accuracy = completeness * (matched / (matched + total_deviation))
+            score = 0.4 + 0.6 * (accuracy * (matched / len(source)))
         return score
+
+    def __tokenize(self, source):
+        tokens = []
+        token = ''
+        pattern = regex.compile(self.config.token_regex)
+        for char in source:
+            if StringUtility.is_emoji(char):
+                tokens.append(char)
+                if token != '':
+                    tokens.append(token)
+                    token = ''
+            elif pattern.search(char) is None:
+                token = token + char
+            elif token != '':
+                tokens.append(token)
+                token = ''
+        if token != '':
+            tokens.append(token)
+        return tokens
 
 
 class BooleanExtractorConfiguration:
@@ -2878,6 +2951,8 @@ class BooleanExtractor(ChoiceExtractor):
         options_config.regexes_map = regexes_map
         options_config.token_regex = config.token_regex
         options_config.only_top_match = config.only_top_match
+        options_config.allow_partial_match = False
+        options_config.max_distance = 2
         ChoiceExtractor.__init__(self, options_config)
 
 
@@ -2955,10 +3030,10 @@ CONTROL_EDITS = {
                     "self.regex_true = RegExpUtility.get_safe_reg_exp(EnglishChoice.FalseRegex)")],
     'C20.polarity': [("Constants.SYS_BOOLEAN_TRUE: True", "Constants.SYS_BOOLEAN_TRUE: False")],
     'C20.typing': [("value.type = type_extracted", "value.type = Constants.SYS_BOOLEAN_TRUE")],
-    'C20.single': [("results.append(partial_results[0])", "results.extend(partial_results)")],
+    'C20.single': [("results.append(partial_results[top])", "results.extend(partial_results)")],
     'C20.rewrite': [(r"(\\uD83D\\uDC4C|\\u0001f44c)", r"(\\u0001f44c|\\u270B)")],
     'C20.word': [("(yes|ok)", "(yes|ok |Yep)")],
-    'C20.emoji': [(r"(\\uD83D\\uDC4E|\\u0001F44E)", r"(\\uD83D\\uDC4E|\\u270B|\\u0001F44E)")],
+    'C20.emoji': [(r"(\\uD83D\\uDC4E|\\u0001F44E|\\u0001F590)", r"(\\uD83D\\uDC4E|\\u270B|\\u0001F44E|\\u0001F590)")],
     'C20.residue': [("regex.finditer(py_regex, source)", "regex.finditer(py_regex, source, regex.I)")],
     'C20.disjoint': [(r"(no|not\\s+ok)", r"(no|yes|not\\s+ok)")],
     'C20.separators': [(r"f'[^\\w\\d]'", r"f'[^\\w\\d,]'")],
@@ -2966,10 +3041,16 @@ CONTROL_EDITS = {
     'C20.other-matches': [("def __init__(self, source='', score=0.0, other_matches=[]):",
                            "def __init__(self, source='', score=0.0, other_matches=[None]):")],
     'C20.other-path': [("data = ChoiceExtractDataResult(ext_result.data)", "data = ext_result.data"),
-                       ("value.data = ChoiceExtractDataResult(source, score)", "value.data = ChoiceExtractDataResult(source, score, [value])")],
+                       ("value.data = ChoiceExtractDataResult(source, top_score)", "value.data = ChoiceExtractDataResult(source, top_score, [value])")],
     'C20.sentinel': [("ret = -1", "ret = 1")],
     'C20.unbound': [("ret = -1", "ret = 1"), ("        parse_results = []\n        try:", "        try:")],
     'C20.span': [("value.start = match.start()", "value.start = lowered.index(match)")],
+    'C20.scoring': [("                for i in range(len(source_tokens)):\n                    score = self.match_value(source_tokens, match_tokens, i)\n"
+                     "                    top_score = max(top_score, score)\n",
+                     "                top_score = self.match_value(source_tokens, match_tokens, 0)\n")],
+    'C20.is-emoji': [("from emoji import demojize", "from emoji import EMOJI_DATA, STATUS"),
+                     ("        val = demojize(letter)\n        if letter in val:\n            return False\n        else:\n            return True\n",
+                      "        entry = EMOJI_DATA.get(letter)\n        return entry is not None and entry['status'] <= STATUS['fully_qualified']\n")],
 }
 
 
@@ -3015,7 +3096,7 @@ def controls(chk):
     for tag, pkg in (('control', CONTROL_PACKAGE), ('control2', pkg2)):
         ix, _m = mini_index(pkg, tag)
         base = Recorder()
-        analyse(ix, base)
+        analyse(ix, base, tab={'max_n': 5})
         if base.bad_rules:
             raise AnalysisError('%s package: the unedited package is flagged by %s %s'
                                 % (tag, sorted(base.bad_rules), list(base.bad_rules.values())[0][:1]))
@@ -3025,7 +3106,7 @@ def controls(chk):
             ix, _m = mini_index(_edited(pkg, edits, rid), '%s-%s' % (tag, rid))
             rec = Recorder()
             try:
-                analyse(ix, rec)
+                analyse(ix, rec, tab={'max_n': 5} if rid == 'C20.scoring' else None)
             except AnalysisError as e:
                 raise AnalysisError('%s for %s could not be analysed: %s' % (tag, rid, e))
             fired.setdefault(rid, []).append(rid in rec.bad_rules)
